@@ -361,3 +361,88 @@ Proof.
     apply raw_unregister_O; [exact D0|]. apply EV; [exact UR|]. cbn in Z0. lia.
   - cbn beta. intros s1 Q. cbn [ARes]. eapply OD_OF; [exact Q|of_plain].
 Qed.
+
+(* ---------- every action ---------- *)
+(* what the state invariant has to supply *)
+Record OH (s : core) : Prop := {
+  oh_ref : 0 <= active_ref s;
+  oh_kick : ev_count s = 0 -> rw_reg s KICK_RAW = false;
+  oh_evfd : forall j, rw_reg s j = true -> efd_raw s <> 0 -> rw_wfd s j = rw_rfd s j;
+  oh_evk : use_raw s = true -> 1 <= ev_count s -> rw_reg s KICK_RAW = true }.
+
+Lemma OD_after : forall s e r, (OD (emit s e) -> ARes OD r) -> OD s -> ARes OD r.
+Proof. intros s e r H D. apply H. eapply OD_OF; [exact D|of_plain]. Qed.
+
+Lemma OD_res : forall r (e : core -> tev), ARes OD r -> ARes OD (bind r (fun s => R (emit s (e s)))).
+Proof. intros r e H. eapply ARes_bind; [exact H|]. cbn beta. intros s1 Q. cbn [ARes]. eapply OD_OF; [exact Q|of_plain]. Qed.
+
+Lemma OD_ARes : forall s r, OD s -> ARes (OF s) r -> ARes OD r.
+Proof. intros s r D H. eapply ARes_imp; [exact H|]. cbn beta. intros s1 Q. eapply OD_OF; eassumption. Qed.
+
+Lemma lift_heap_OF : forall s o, ARes (OF s) (lift_heap s o).
+Proof. intros s [h|h|]; cbn [lift_heap ARes halt]; [of_plain|exact I|exact I]. Qed.
+
+Lemma OF_validate : forall s, OF s (validate_now s).
+Proof. intros. unfold validate_now. dm; [apply OF_refl|of_plain]. Qed.
+
+Lemma OF_emit : forall s e, OF s (emit s e). Proof. intros. of_plain. Qed.
+
+Lemma OF_kern_act : forall s a k', KO (kern s) k' -> OF s (set_kern (emit s (TAct a)) k').
+Proof. intros. constructor; [assumption|reflexivity]. Qed.
+
+Ltac ofa := match goal with |- ARes (OF ?s) ?r =>
+  match r with context [emit s (TAct ?a)] =>
+    eapply ARes_imp; [|cbn beta; intros ? ?; eapply OF_trans; [apply (OF_emit s (TAct a))|eassumption]] end end.
+
+Theorem do_action_O : forall s a, OD s -> OH s -> wf_action a -> ARes OD (do_action s a).
+Proof.
+  intros s a D H W. destruct a; cbn [do_action wf_action] in *; unfold ok_idx in *.
+  - (* AFdReg *) apply (OD_ARes s _ D). repeat dm; cbn [ARes]; try apply OF_refl. ofa. apply fd_register_OF.
+  - (* AFdTry *) dm; [exact D|].
+    pose proof (fd_register_try_OF (emit s (TAct (AFdTry i))) i) as Q.
+    destruct (fd_register_try _ i) as [r failed]. cbn [fst] in Q.
+    apply (OD_res r (fun _ => TRes 0 i (if failed then -1 else 0))).
+    eapply OD_ARes; [|exact Q]. eapply OD_OF; [exact D|apply OF_emit].
+  - (* AFdUnreg *) apply (OD_ARes s _ D). dm; [|apply OF_refl]. ofa. apply fd_unregister_OF.
+  - apply (OD_ARes s _ D). ofa. apply fd_set_handler_OF.
+  - cbn [ARes]. eapply OD_OF; [exact D|of_plain].
+  - dm; cbn [ARes]; [exact D|eapply OD_OF; [exact D|of_plain]].
+  - (* AKSet *) cbn [ARes]. eapply OD_OF; [exact D|]. apply OF_kern_act. unfold k_set_cond.
+    destruct (k_get (kern s) (100 + i)) as [v|] eqn:G; [|apply KO_refl]. apply KO_put_user. lia.
+  - (* AKClose *) dm; cbn [ARes]; [exact D|]. eapply OD_OF; [exact D|]. apply OF_kern_act. unfold k_user_close.
+    destruct (k_get (kern s) (100 + i)) as [v|] eqn:G; [|apply KO_refl]. apply KO_put_user. lia.
+  - (* AKOpen *) cbn [ARes]. eapply OD_OF; [exact D|]. apply OF_kern_act. unfold k_user_fd. apply KO_put_user. lia.
+  - apply (OD_ARes s _ D). dm; [apply OF_refl|]. ofa. apply lift_heap_OF.
+  - apply (OD_ARes s _ D). dm; [apply OF_refl|]. cbv zeta. eapply ARes_imp; [apply lift_heap_OF|]. cbn beta. intros s1 Q.
+    eapply OF_trans; [|exact Q]. eapply OF_trans; [apply OF_validate|apply OF_emit].
+  - apply (OD_ARes s _ D). dm; [|apply OF_refl]. ofa. apply lift_heap_OF.
+  - dm; cbn [ARes]; [exact D|eapply OD_OF; [exact D|of_plain]].
+  - dm; cbn [ARes]; [exact D|]. eapply OD_OF; [exact D|]. apply OF_plain; unfold task_register; cbv zeta; repeat dm; reflexivity.
+  - dm; cbn [ARes]; [|exact D]. eapply OD_OF; [exact D|of_plain].
+  - dm; cbn [ARes]; [exact D|]. eapply OD_OF; [exact D|of_plain].
+  - (* AEvReg *) dm; [exact D|].
+    assert (Q : ARes OD (fst (event_register (emit s (TAct (AEvReg j))) j))).
+    { apply event_register_O; [eapply OD_OF; [exact D|apply OF_emit]|apply (oh_ref _ H)|apply (oh_kick _ H)]. }
+    destruct (event_register _ j) as [r failed]. cbn [fst] in Q.
+    apply (OD_res r (fun _ => TRes 1 j (if failed then -1 else 0))). exact Q.
+  - (* AEvUnreg *) destruct (ev_reg s j) eqn:ER; [|exact D].
+    apply event_unregister_O; [eapply OD_OF; [exact D|apply OF_emit]|].
+    cbn [use_raw ev_count efd_raw rw_rfd rw_wfd emit set_trace]. intros U C1 NZ.
+    apply (oh_evfd _ H KICK_RAW); [apply (oh_evk _ H U); lia|exact NZ].
+  - dm; cbn [ARes]; [|exact D]. eapply OD_OF; [exact D|]. apply OF_plain; unfold event_post; repeat dm; try reflexivity;
+      unfold task_register; cbv zeta; repeat dm; reflexivity.
+  - dm; cbn [ARes]; [exact D|eapply OD_OF; [exact D|of_plain]].
+  - (* ARwReg *) destruct (rw_reg s j) eqn:RG; [exact D|].
+    assert (Q : ARes OD (fst (raw_register (emit s (TAct (ARwReg j))) j))).
+    { apply raw_register_O; [eapply OD_OF; [exact D|apply OF_emit]|exact RG]. }
+    destruct (raw_register _ j) as [r failed]. cbn [fst] in Q.
+    apply (OD_res r (fun _ => TRes 2 j (if failed then -1 else 0))). exact Q.
+  - (* ARwUnreg *) destruct (rw_reg s j) eqn:RG; [|exact D].
+    apply raw_unregister_O; [eapply OD_OF; [exact D|apply OF_emit]|]. apply (oh_evfd _ H j RG).
+  - dm; cbn [ARes]; [|exact D]. eapply OD_OF; [exact D|]. eapply OF_trans; [apply (OF_emit s (TAct (ARwPost j)))|apply raw_post_OF].
+  - dm; cbn [ARes]; [exact D|eapply OD_OF; [exact D|of_plain]].
+  - cbn [ARes]. eapply OD_OF; [exact D|of_plain].
+  - cbn [ARes]. eapply OD_OF; [exact D|]. apply OF_kern_act. apply KO_fields. reflexivity.
+  - cbn [ARes]. eapply OD_OF; [exact D|of_plain].
+  - cbn [ARes]. eapply OD_OF; [exact D|]. eapply OF_trans; [apply (OF_emit s (TAct AValidate))|apply OF_validate].
+Qed.
